@@ -131,7 +131,8 @@ def run_c05(tier):
     plan = [("maniaconv", 2 if tier == "quick" else 3, "FALSE" if tier == "quick" else "TRUE", "release"),
             ("adversarial", 1 if tier == "quick" else 2, "FALSE", "release"),
             ("realistic", 1 if tier == "quick" else 2, "FALSE", "release"),        # (2, rich) would be 10 million maps
-            ("realistic", 1 if tier == "quick" else 2, "FALSE", "dev")]
+            ("realistic", 1 if tier == "quick" else 2, "FALSE", "dev"),
+            ("runs", 1, "FALSE", "release"), ("runs", 1, "FALSE", "dev")]        # stacks / streams of 3, 8, 40 equal objects
     for domain, maxobjs, rich, profile in plan:
         scen, n = enumerate_corners(res, domain, maxobjs, rich, tier, "C05")
         binp = common.build_harness("", profile)
@@ -197,7 +198,7 @@ def run_c09(tier):
     evaluations = 0
     distinct = 0
     samples = []
-    plan = [("degenerate", 2 if tier == "quick" else 3, "FALSE"), ("realistic", 1 if tier == "quick" else 2, "FALSE")]
+    plan = [("degenerate", 2 if tier == "quick" else 3, "FALSE"), ("realistic", 1 if tier == "quick" else 2, "FALSE"), ("runs", 1, "FALSE")]
     for domain, maxobjs, rich in plan:
         scen, n = enumerate_corners(res, domain, maxobjs, rich, tier, "C09")
         binp = common.build_harness("", "release")
